@@ -75,6 +75,10 @@ fn server_received_a_message(
                 if opt_parent.is_none() || opt_parent.unwrap().get() != p_id {
                     entity.set_parent(p_id);
                     world.entity_mut(p_id).add_child(e_id);
+                    world
+                        .resource_mut::<SyncTrackerRes>()
+                        .pushed_parent_from_network
+                        .insert(me_id, mp_id);
                 }
                 repeat_except_for_client(
                     client_id,
